@@ -33,63 +33,6 @@ Inductive outcome :=
 | OAbort | OAssert | ODone | OFallthrough
 | OErr (msg : string).
 
-Definition eval_store (D : list opdef) (fuel : nat) (r : env) (st : list (string * expr)) : res (list (string * value)) :=
-  mapM (fun xe => do v <- eval D fuel r (snd xe); Ok (fst xe, v)) st.
-
-(* choices: a list of naturals; a Choice node over a set of n > 0 elements (in the canonical
-   order of the value universe) takes element (k mod n); Either likewise; an exhausted list reads 0 *)
-Definition next_choice (ks : list nat) : nat * list nat :=
-  match ks with [] => (O, []) | k :: r => (k, r) end.
-
-Definition pick {A} (f : dtree -> A) (dflt : A) : list dtree -> nat -> A :=
-  fix pick (ts : list dtree) (n : nat) {struct ts} : A :=
-    match ts with
-    | [] => dflt
-    | t1 :: more => match n with O => f t1 | S n' => pick more n' end
-    end.
-
-Fixpoint run (D : list opdef) (fuel : nat) (t : dtree) (r : env) (ks : list nat) {struct t} : outcome :=
-  match t with
-  | Leaf (LCommit g l p) =>
-      match eval_store D fuel r g, eval_store D fuel r l, mapM (eval D fuel r) p with
-      | Ok gv, Ok lv, Ok pv => OCommit gv lv pv
-      | Err m, _, _ => OErr m
-      | _, Err m, _ => OErr m
-      | _, _, Err m => OErr m
-      end
-  | Leaf LAbort => OAbort
-  | Leaf LAssert => OAssert
-  | Leaf LDone => ODone
-  | Leaf LFallthrough => OFallthrough
-  | Branch c t1 t2 =>
-      match eval D fuel r c with
-      | Ok (VBool true) => run D fuel t1 r ks
-      | Ok (VBool false) => run D fuel t2 r ks
-      | Ok _ => OErr "condition is not a boolean"
-      | Err m => OErr m
-      end
-  | Choice s k =>
-      match eval D fuel r s with
-      | Ok (VSet []) => OAbort
-      | Ok (VSet xs) =>
-          let '(c, ks') := next_choice ks in
-          match nth_error xs (Nat.modulo c (List.length xs)) with
-          | Some v => run D fuel k (with_bound r v) ks'
-          | None => OErr "choice"
-          end
-      | Ok _ => OErr "choice over a non-set"
-      | Err m => OErr m
-      end
-  | Either ts =>
-      match ts with
-      | [] => OAbort
-      | _ =>
-        let '(c, ks') := next_choice ks in
-        pick (fun t1 => run D fuel t1 r ks') (OErr "either") ts (Nat.modulo c (List.length ts))
-      end
-  | Fail m => OErr ("symbolic execution failed: " ++ m)%string
-  end.
-
 (* ------------------------------------------------------------------ substitution into normal form *)
 
 Definition is_binder (t : tag) : bool :=
@@ -189,6 +132,70 @@ Proof.
   destruct (tag_eq_dec t t') as [Ht | Ht]; [| right; congruence].
   destruct (list_eq_dec expr_eq_dec cs cs') as [Hc | Hc]; [left; congruence | right; congruence].
 Defined.
+
+(* identity assignments (x' = x, the old translations' way of saying UNCHANGED x) *)
+Definition is_id_glob (xe : string * expr) : bool := if expr_eq_dec (snd xe) (EGlobal (fst xe)) then true else false.
+Definition is_id_loc (xe : string * expr) : bool := if expr_eq_dec (snd xe) (ELocal (fst xe)) then true else false.
+Definition clean_glob (g : list (string * expr)) := filter (fun xe => negb (is_id_glob xe)) g.
+Definition clean_loc (l : list (string * expr)) := filter (fun xe => negb (is_id_loc xe)) l.
+
+Definition eval_store (D : list opdef) (fuel : nat) (r : env) (st : list (string * expr)) : res (list (string * value)) :=
+  mapM (fun xe => do v <- eval D fuel r (snd xe); Ok (fst xe, v)) st.
+
+(* choices: a list of naturals; a Choice node over a set of n > 0 elements (in the canonical
+   order of the value universe) takes element (k mod n); Either likewise; an exhausted list reads 0 *)
+Definition next_choice (ks : list nat) : nat * list nat :=
+  match ks with [] => (O, []) | k :: r => (k, r) end.
+
+Definition pick {A} (f : dtree -> A) (dflt : A) : list dtree -> nat -> A :=
+  fix pick (ts : list dtree) (n : nat) {struct ts} : A :=
+    match ts with
+    | [] => dflt
+    | t1 :: more => match n with O => f t1 | S n' => pick more n' end
+    end.
+
+Fixpoint run (D : list opdef) (fuel : nat) (t : dtree) (r : env) (ks : list nat) {struct t} : outcome :=
+  match t with
+  | Leaf (LCommit g l p) =>
+      (* an assignment x' = x is UNCHANGED x: it is not reported as an update *)
+      match eval_store D fuel r (clean_glob g), eval_store D fuel r (clean_loc l), mapM (eval D fuel r) p with
+      | Ok gv, Ok lv, Ok pv => OCommit gv lv pv
+      | Err m, _, _ => OErr m
+      | _, Err m, _ => OErr m
+      | _, _, Err m => OErr m
+      end
+  | Leaf LAbort => OAbort
+  | Leaf LAssert => OAssert
+  | Leaf LDone => ODone
+  | Leaf LFallthrough => OFallthrough
+  | Branch c t1 t2 =>
+      match eval D fuel r c with
+      | Ok (VBool true) => run D fuel t1 r ks
+      | Ok (VBool false) => run D fuel t2 r ks
+      | Ok _ => OErr "condition is not a boolean"
+      | Err m => OErr m
+      end
+  | Choice s k =>
+      match eval D fuel r s with
+      | Ok (VSet []) => OAbort
+      | Ok (VSet xs) =>
+          let '(c, ks') := next_choice ks in
+          match nth_error xs (Nat.modulo c (List.length xs)) with
+          | Some v => run D fuel k (with_bound r v) ks'
+          | None => OErr "choice"
+          end
+      | Ok _ => OErr "choice over a non-set"
+      | Err m => OErr m
+      end
+  | Either ts =>
+      match ts with
+      | [] => OAbort
+      | _ =>
+        let '(c, ks') := next_choice ks in
+        pick (fun t1 => run D fuel t1 r ks') (OErr "either") ts (Nat.modulo c (List.length ts))
+      end
+  | Fail m => OErr ("symbolic execution failed: " ++ m)%string
+  end.
 
 Section Subst.
   Variable locals : list string.     (* TLA+ per-process variables (accessed as v[self]) *)
@@ -311,7 +318,9 @@ Inductive mstmt :=
 
 Record macro := mkMacro { m_read : list mstmt; m_write : list mstmt }.
 
-Inductive target := TgtGlobal (g : string) | TgtLocal (v : string).
+Inductive target :=
+| TgtGlobal (g : string) | TgtLocal (v : string)
+| TgtExpr (e : expr).       (* a value parameter the translation inlined: reads give e (over self/constants only), writes are refused *)
 (* how an archetype resource of one instance is realised in the spec state *)
 Record binding := mkBind { b_target : target; b_macro : option macro }.
 
@@ -333,9 +342,10 @@ Fixpoint apply_path (f : expr) (idx : list expr) : expr :=
   match idx with [] => f | i :: r => apply_path (EApp f i) r end.
 
 Definition tgt_cur (S : sstate) (t : target) : expr :=
-  match t with TgtGlobal g => cur_glob S g | TgtLocal v => cur_loc S v end.
+  match t with TgtGlobal g => cur_glob S g | TgtLocal v => cur_loc S v | TgtExpr e => e end.
 Definition tgt_set (S : sstate) (t : target) (e : expr) : sstate :=
-  match t with TgtGlobal g => set_glob S g e | TgtLocal v => set_loc S v e end.
+  match t with TgtGlobal g => set_glob S g e | TgtLocal v => set_loc S v e
+  | TgtExpr _ => set_glob S "$write-to-a-value-parameter" (EUnsupported "write to an inlined value parameter") end.
 Definition tgt_update (S : sstate) (t : target) (idx : list expr) (e : expr) : sstate :=
   match idx with
   | [] => tgt_set S t e
@@ -574,6 +584,7 @@ Fixpoint norm (t : dtree) : dtree :=
       end
   | Choice s k => Choice s (norm k)
   | Either ts => Either (map norm ts)
+  | Leaf (LCommit g l p) => Leaf (LCommit (clean_glob g) (clean_loc l) p)
   | _ => t
   end.
 
